@@ -48,6 +48,7 @@ func (ex *Exec) slicesSortedCall(st *State, in ssa.Instruction, c *ssa.CallCommo
 	}
 	ex.note("trusted contract: slices.Sorted(maps.Keys(m)) returns the keys of m in strictly ascending order in a fresh slice")
 	n := st.mapCard(mapT, m.T)
+	st.assume(tLe(n, bigLit(pow2(62)))) // the keys fit in a Go slice
 	r := st.newRef("sortedkeys")
 	s := Sl{r, intLit(0), st.named("len", n), st.named("cap", n)}
 	key := "E|" + typeKeyString(mt.Key()) + "|"
